@@ -29,7 +29,7 @@ const maxVersions = 3
 
 // histOp operands are indices interpreted against the state at execution time.
 type histOp struct {
-	Kind string `json:"kind"` // write erase bulk delete create rename newversion reopen
+	Kind string `json:"kind"` // write erase bulk delete create rename newversion reopen repodelete
 	Repo int    `json:"repo"`
 	Slot int    `json:"slot"`
 	Type int    `json:"type,omitempty"` // create: type of the new instance
@@ -62,9 +62,10 @@ type inst struct {
 }
 
 type repoState struct {
-	root  string
-	uuids []string // version chain, last = open head
-	slots [3]*inst
+	deleted bool // the whole repo was deleted ("repos delete"); later ops naming it are passed over
+	root    string
+	uuids   []string // version chain, last = open head
+	slots   [3]*inst
 }
 
 type obs struct {
@@ -645,6 +646,9 @@ func (w *world) write(ri, si int, op histOp, i int, what string) error {
 
 func settleAll(w *world, deep bool) {
 	for _, r := range w.repos {
+		if r.deleted {
+			continue
+		}
 		if deep {
 			drive.DeepSettle(r.root)
 		} else {
@@ -721,7 +725,72 @@ func runHistory(c histCase) (cls []string, err error) {
 		target := instKey(ri, si)
 		opname := op.Kind
 		created := false
+		if r.deleted && op.Kind != "reopen" {
+			continue
+		}
 		switch op.Kind {
+		case "repodelete":
+			// the documented way to delete a repo: RPC command "repos delete <root uuid> <passcode>".  Only with two
+			// repos: the instances of the surviving repo (ids interleaved with the deleted repo's) are the observers.
+			if nrepos < 2 {
+				continue
+			}
+			opname = "delete-repo"
+			target = ""
+			if err := stats.PanicGuard("C06/rpc-repos-delete/panic", func() error {
+				_, err := server.VerifRPC("repos", "delete", r.root, "")
+				return err
+			}); err != nil {
+				if stats.SigOf(err) != "" {
+					return nil, err
+				}
+				return nil, stats.Violf("C06/delete-repo/refused", "%s: %v", what, err)
+			}
+			r.deleted = true
+			// the instances are purged by background goroutines with no completion signal: wait (bounded) until the
+			// key range of each is empty; one that is not empty by then is not judged for leftovers (no alarm on slowness)
+			db, err := defaultDB()
+			if err != nil {
+				return nil, fmt.Errorf("harness: %v", err)
+			}
+			deadline := time.Now().Add(20 * time.Second)
+			for sj, in := range r.slots {
+				if in == nil {
+					continue
+				}
+				min, max := storage.DataInstanceKeyRange(in.id)
+				for {
+					kvs, err := rawScan(db, min, max)
+					if err != nil {
+						return nil, fmt.Errorf("harness: %s: scan: %v", what, err)
+					}
+					if len(kvs) == 0 {
+						w.dead[in.id] = fmt.Sprintf("%s type %s (repo deleted)", instKey(ri, sj), typeNames[in.typ])
+						break
+					}
+					if time.Now().After(deadline) {
+						stats.Count("repo_delete_purge_not_finished_in_20s", 1)
+						break
+					}
+					time.Sleep(2 * time.Millisecond)
+				}
+				if len(base[instKey(ri, sj)].raw) > 0 {
+					w.class("hist/delete-repo-with-nonempty-instance")
+				}
+				r.slots[sj] = nil
+			}
+			w.class("hist/delete-repo")
+			deletions++
+			for rj, rr := range w.repos {
+				if rj == ri || rr.deleted {
+					continue
+				}
+				for sj, x := range rr.slots {
+					if x != nil && len(base[instKey(rj, sj)].raw) > 0 {
+						w.class("hist/delete-repo-while-other-repo-holds-data")
+					}
+				}
+			}
 		case "write", "erase", "bulk":
 			in := r.slots[si]
 			if in == nil {
@@ -1098,6 +1167,25 @@ func genHistory(t *rapid.T) histCase {
 		}
 		c.Ops = append(c.Ops, cr)
 		some("post", 3)
+	}
+	if c.Repos == 2 && rapid.IntRange(0, 2).Draw(t, "repodelete") > 0 {
+		victim := rapid.IntRange(0, 1).Draw(t, "victim")
+		// both repos hold data first, so that a purge which strays outside the deleted repo has something to hit
+		for ri := 0; ri < 2; ri++ {
+			for si := 0; si < 2; si++ {
+				c.Ops = append(c.Ops, histOp{Kind: "bulk", Repo: ri, Slot: si, N: rapid.IntRange(1, 6).Draw(t, "n")})
+			}
+		}
+		c.Ops = append(c.Ops, histOp{Kind: "repodelete", Repo: victim})
+		if rapid.IntRange(0, 3).Draw(t, "reopen2") == 0 {
+			c.Ops = append(c.Ops, histOp{Kind: "reopen"})
+		}
+		n := rapid.IntRange(0, 3).Draw(t, "after")
+		for i := 0; i < n; i++ {
+			op := genOp("")
+			op.Repo = 1 - victim
+			c.Ops = append(c.Ops, op)
+		}
 	}
 	if deleteFindingKnown() {
 		if n := steerAroundDeleteFinding(&c); n > 0 {
